@@ -168,32 +168,46 @@ def check_b2(ctx) -> None:
     paths = _scalar_paths(ctx, lp, 'Price')
     P, R = Rat.atom('ptc_price'), Rat.atom('inflation_rate')
     n = 0
+    # decide the guards by their meaning, not their spelling: every path is evaluated over the finite domain
+    # (inflation adjusted?) x (year = 0, 1, 2) [x (year < duration?) in the all-years form]; a path applies where all its tests hold
+    from rules.c07 import eval_pred, _Unknown
+    DUR = 2
+    covered = set()
     for p in paths:
         d = p.env.get('ELEM')
-        conds = [(norm(t), pol) for t, pol, _ in p.conds]
-        infl = None
-        in_dur = True
-        for t, pol in conds:
-            if 'ptc_inflation_adjusted' in t:
-                ok_t = t in (f'ptc_inflation_adjusted and {y} > 0', f'{y} > 0 and ptc_inflation_adjusted', f'ptc_inflation_adjusted and {y} >= 1')
-                ctx.check(ok_t, 'B2', 'BuildPTCModel/inflation-guard', f'{rel}:{lp.lineno}',
-                          f'inflation adjustment is guarded by `{t}`; it applies only when requested and from the second credited year')
-                infl = pol
-            elif guard_form and t in (f'{y} < duration', f'duration > {y}'):
-                in_dur = pol
-            else:
-                ctx.bad('B2', f'BuildPTCModel/unexpected-guard:{t[:40]}', f'{rel}:{lp.lineno}', f'the credit additionally depends on `{t}`')
-        if d is None:
-            ctx.check(not in_dur, 'B2', 'BuildPTCModel/credit-set', f'{rel}:{lp.lineno}', 'a credited year receives no credit')
-            continue
-        n += 1
-        try:
-            val = Translator().tr_def(d)
-        except Unsupported as e:
-            raise AnalysisError(f'BuildPTCModel: {e}')
-        want = Rat.atom('PREV') * (ONE + R) if infl else P
-        ctx.check(in_dur and val.equals(want), 'B2', f'BuildPTCModel/{"inflation-adjusted" if infl else "flat"}/credit', f'{rel}:{d.line}',
-                  f'credit of a year is `{val.show()}`; documented `{want.show()}`', fact=want.show())
+        val = None
+        if d is not None:
+            try:
+                val = Translator().tr_def(d)
+            except Unsupported as e:
+                raise AnalysisError(f'BuildPTCModel: {e}')
+        applies = []
+        for adj in (False, True):
+            for yr in ((0, 1, 2, 3) if guard_form else (0, 1)):
+                env = {'ptc_inflation_adjusted': adj, y: yr, 'duration': DUR, '0': 0}
+                try:
+                    ok_all = all(eval_pred(t, env) == pol for t, pol, _ in p.conds)
+                except _Unknown as u:
+                    raise AnalysisError(f'BuildPTCModel: guard `{u.key[:60]}` is outside the decidable form (cannot decide)')
+                if ok_all:
+                    applies.append((adj, yr))
+        for adj, yr in applies:
+            covered.add((adj, yr))
+            in_dur = (yr < DUR) if guard_form else True
+            n += 1
+            key = f'BuildPTCModel/credit@adjusted={adj},year={"0" if yr == 0 else ">0" if in_dur else ">=duration"}'
+            where = f'{rel}:{d.line if d is not None else lp.lineno}'
+            if not in_dur:
+                ctx.check(d is None, 'B2', key, where, 'a year at or after the duration receives a credit', fact='zero outside the duration')
+                continue
+            want = Rat.atom('PREV') * (ONE + R) if (adj and yr > 0) else P
+            ctx.check(val is not None and val.equals(want), 'B2', key, where,
+                      f'credit of {"the first year" if yr == 0 else "a later year"} with inflation adjustment {"on" if adj else "off"} is '
+                      f'`{val.show() if val is not None else "not set"}`; documented `{want.show()}` (flat credit; previous year x (1 + inflation) '
+                      f'only when requested and from the second credited year)', fact=want.show())
+    need = {(a_, y_) for a_ in (False, True) for y_ in ((0, 1, 2, 3) if guard_form else (0, 1))}
+    ctx.check(covered == need, 'B2', 'BuildPTCModel/every-case-has-a-path', f'{rel}:{lp.lineno}',
+              f'no path of the loop body applies for {sorted(need - covered)[:3]} (adjusted?, year)', fact='all cases covered')
     ctx.floor('B2', n, 2, 'credit paths')
 
 
